@@ -94,6 +94,8 @@ inductive Res
   | invalidName
   | invalidDigest
   | sizeMismatch   -- Import: "expected %d bytes, got %d"
+  | tooLarge       -- readAndSum with proposed_fixes/C08-F28.patch: the file exceeds the read limit
+  | negSize        -- copyNamedFile with proposed_fixes/C08-F29.patch: negative size refused
   deriving DecidableEq, Repr
 
 /-- `io.Copy(cw, src)` with `cw = checkWriter{d, size, w = file at offset base}`:
@@ -133,6 +135,19 @@ def copyNamedEffs (hash : Bytes → Digest) (st : FileSt) (d : Digest) (size : N
     List Eff × Res :=
   if st.map List.length = some size then ([], .ok)   -- "File already exists with correct size. This is good enough."
   else afterStat hash (statTrunc st size) d size s
+
+/-- `copyNamedFile(name, src, d, size)` with a NEGATIVE `size` (round 7; sizes are `int64` in the code).  No file
+    has a negative length, so the same-size return is never taken and `info.Size() > size` holds of every existing
+    file: it is opened with `O_TRUNC`.  `size == 0` is false; in `checkWriter.Write` the first non-empty chunk has
+    `nextSize > size` ("exceeds") ⇒ `Truncate(0)`; a source that delivers nothing and ends with EOF gives
+    `n = 0`, `n < size` FALSE ⇒ `nil`: the call answers ok after having emptied the file (finding F29).
+    `refuse = true` is proposed_fixes/C08-F29.patch: a negative size is refused before the stat. -/
+def copyNamedNegEffs (refuse : Bool) (st : FileSt) (s : Script) : List Eff × Res :=
+  if refuse then ([], .negSize)
+  else if s.chunks.any (fun c => !c.isEmpty) then ([.openCreate st.isSome, .truncate 0, .close], .exceeds)
+  else match s.fin with
+    | .eof => ([.openCreate st.isSome, .close], .ok)
+    | .err => ([.openCreate st.isSome, .truncate 0, .close], .srcErr)
 
 /-! ## names (`names.Parse`, `IsFullyQualified`, `nameToPath`) — byte strings, as in Go -/
 
@@ -395,6 +410,47 @@ def resolve (hash : Bytes → Digest) (k : Disk) (name : Bytes) : Disk × Out :=
         | .ok => (pr.1, .digest (hash data))
         | e => (pr.1, .res e)
 
+/-- `Put(d, r, size)` with `size < 0` -/
+def putNeg (refuse : Bool) (k : Disk) (d : Digest) (s : Script) : Disk × Res :=
+  let r := copyNamedNegEffs refuse (k.blob d) s
+  (k.setBlob d (run r.1 (k.blob d)), r.2)
+
+/-- a manifest file written BEHIND THE CACHE'S BACK under the exact spelling of a valid name (a manifest edited by
+    hand, a cache inherited from an older version that did not store manifests as blobs — the cases `Resolve`'s
+    doc comment names).  It may create a second manifest that differs from an existing one only by case. -/
+def edit (k : Disk) (name : Bytes) (data : Bytes) : Disk × Res :=
+  match nameToPath name with
+  | none => (k, .invalidName)
+  | some want => ({ k with mans := manSet k.mans want (some data) }, .ok)
+
+/-- `readAndSum(file, limit)` on a file holding `f`: at most `limit` bytes are read, and only those are hashed.
+    `strict = true` is proposed_fixes/C08-F28.patch: a longer file is an error instead of being cut. -/
+def readAndSum (hash : Bytes → Digest) (strict : Bool) (lim : Nat) (f : Bytes) : Option (Bytes × Digest) :=
+  if strict = true ∧ f.length > lim then none else some (f.take lim, hash (f.take lim))
+
+/-- `Resolve(name)` with the read limit of its `readAndSum(file, 1<<20)` (round 7).  `resolve` above is the same
+    function for manifests within the limit (`C08.resolveL_eq_resolve`). -/
+def resolveL (hash : Bytes → Digest) (strict : Bool) (lim : Nat) (k : Disk) (name : Bytes) : Disk × Out :=
+  let nd := splitNameDigest name
+  if nd.2 ≠ [] then
+    match parseDigest nd.2 with
+    | some d => (k, .digest d)
+    | none => (k, .res .invalidDigest)
+  else
+    match nameToPath nd.1 with
+    | none => (k, .res .invalidName)
+    | some want =>
+      match manGet k.mans (manifestPathOf k.mans want) with
+      | none => (k, .res .notExist)
+      | some file =>
+        match readAndSum hash strict lim file with
+        | none => (k, .res .tooLarge)
+        | some (data, dg) =>
+          let pr := put hash k dg data.length ⟨[data], .eof⟩
+          match pr.2 with
+          | .ok => (pr.1, .digest dg)
+          | e => (pr.1, .res e)
+
 /-- what `io.CopyN(w, r, n)` lets through: `io.LimitReader` cuts the stream at `n` bytes and then
     reports EOF without reading the source again -/
 def limitChunks : Nat → List Bytes → SrcEnd → List Bytes × SrcEnd
@@ -432,6 +488,8 @@ inductive Op
   | unlink (name : Bytes)
   | resolve (name : Bytes)
   | chunk (d : Digest) (size start stop : Nat) (cd : Digest) (s : Script)
+  | putNeg (d : Digest) (s : Script)      -- Put under a negative size
+  | edit (name : Bytes) (data : Bytes)    -- manifest file written behind the cache's back
   deriving Repr
 
 /-- does `testHookBeforeFinalWrite` fire inside `Link(name, d)`?  Iff the copy into the temporary file is reached,
@@ -463,12 +521,28 @@ def stepOp (hash : Bytes → Digest) (fixed zc : Bool) (k : Disk) : Op → Disk 
   | .unlink name => unlink k name
   | .resolve name => resolve hash k name
   | .chunk d size a b cd s => let r := chunk hash k d size a b cd s; (r.1, .res r.2)
+  | .putNeg d s => let r := putNeg false k d s; (r.1, .res r.2)
+  | .edit name data => let r := edit k name data; (r.1, .res r.2)
 
 def runOps (hash : Bytes → Digest) (fixed zc : Bool) : List Op → Disk → Disk × List Out
   | [], k => (k, [])
   | op :: ops, k =>
     let r := stepOp hash fixed zc k op
     let rest := runOps hash fixed zc ops r.1
+    (rest.1, r.2 :: rest.2)
+
+/-- the history step with the two round-7 variant flags: `Resolve` with its read limit (`strict` = C08-F28.patch) and
+    the negative-size `Put` (`refuse` = C08-F29.patch); every other operation is `stepOp` -/
+def stepOpL (hash : Bytes → Digest) (fixed zc strict refuse : Bool) (lim : Nat) (k : Disk) : Op → Disk × Out
+  | .resolve name => resolveL hash strict lim k name
+  | .putNeg d s => let r := putNeg refuse k d s; (r.1, .res r.2)
+  | op => stepOp hash fixed zc k op
+
+def runOpsL (hash : Bytes → Digest) (fixed zc strict refuse : Bool) (lim : Nat) : List Op → Disk → Disk × List Out
+  | [], k => (k, [])
+  | op :: ops, k =>
+    let r := stepOpL hash fixed zc strict refuse lim k op
+    let rest := runOpsL hash fixed zc strict refuse lim ops r.1
     (rest.1, r.2 :: rest.2)
 
 /-! ## crash points as the strace driver enumerates them -/
